@@ -50,6 +50,8 @@ PROPS = {
          "checks": {Q: 10000, T: 1600000}, "shards": {Q: 2, T: 16}},
         {"name": "concurrent", "pkg": "internal/layer2", "run": "^TestVerifC13Concurrent$", "race": True,
          "checks": {Q: 200, T: 8000}, "shards": {Q: 2, T: 8}},
+        {"name": "withdraw-inside-announcement", "pkg": "internal/layer2", "run": "^TestVerifC13WithdrawInside$",
+         "checks": {Q: 4000, T: 400000}, "shards": {Q: 2, T: 16}},
     ]},
     "C05": {"engines": [
         {"name": "speaker", "pkg": "speaker", "run": "^TestVerifC05Spk$",
@@ -66,6 +68,8 @@ PROPS = {
          "checks": {Q: 30000, T: 3200000}, "shards": {Q: 2, T: 16}},
         {"name": "exhaustive-views", "pkg": "speaker", "run": "^TestVerifC04Exhaustive$", "rapid": False,
          "checks": {Q: 1, T: 1}, "shards": {Q: 4, T: 16}},
+        {"name": "speaker", "pkg": "speaker", "run": "^TestVerifC04Spk$",
+         "checks": {Q: 6000, T: 800000}, "shards": {Q: 4, T: 16}},
     ]},
     "C10": {"engines": [
         {"name": "views", "pkg": "speaker", "run": "^TestVerifC10Views$",
@@ -138,6 +142,8 @@ PROPS = {
          "checks": {Q: 10000, T: 8000000}, "shards": {Q: 1, T: 16}},
         {"name": "readopen", "pkg": "internal/bgp/native", "run": "^TestVerifC16ReadOpen$",
          "checks": {Q: 40000, T: 32000000}, "shards": {Q: 2, T: 16}},
+        {"name": "session-stream", "pkg": "internal/bgp/native", "run": "^TestVerifC16Session$", "shrinktime": "20s",
+         "checks": {Q: 200, T: 16000}, "shards": {Q: 4, T: 16}, "timeout": {Q: 900, T: 5400}},
         {"name": "readopen-fuzz", "kind": "fuzz", "pkg": "internal/bgp/native", "fuzz": "FuzzVerifC16ReadOpen",
          "fuzztime": {T: 90}, "tiers": [T]},
     ]},
